@@ -110,6 +110,12 @@ func runWorker(id, tier string, lo, hi int, out string) int {
 		hi = len(all)
 	}
 	mine := all[lo:hi]
+	if len(mine) > 0 && mine[0].Flavour != "" && lo == 0 {
+		if err := explore.DeterminismGuard(mine); err != nil {
+			fmt.Fprintln(os.Stderr, "INFRA: determinism guard:", err)
+			return 2
+		}
+	}
 	start := time.Now()
 	debug.SetGCPercent(400)
 	// hang / memory watchdog
@@ -211,7 +217,13 @@ func runParent(id, tier string) int {
 	}
 	start := time.Now()
 	scs := c.Scenarios(tier)
-	if err := explore.DeterminismGuard(scs); err != nil {
+	var plainScs []*explore.Scenario
+	for _, sc := range scs {
+		if sc.Flavour == "" {
+			plainScs = append(plainScs, sc)
+		}
+	}
+	if err := explore.DeterminismGuard(plainScs); err != nil {
 		fmt.Fprintln(os.Stderr, "INFRA: determinism guard:", err)
 		return 2
 	}
@@ -239,8 +251,16 @@ func runParent(id, tier string) int {
 	}
 	type rng struct{ lo, hi int }
 	var chunks []rng
-	for lo := 0; lo < len(scs); lo += chunk {
-		chunks = append(chunks, rng{lo, min(lo+chunk, len(scs))})
+	for lo := 0; lo < len(scs); {
+		hi := min(lo+chunk, len(scs))
+		for k := lo + 1; k < hi; k++ { // a chunk never mixes build flavours
+			if scs[k].Flavour != scs[lo].Flavour {
+				hi = k
+				break
+			}
+		}
+		chunks = append(chunks, rng{lo, hi})
+		lo = hi
 	}
 	if sd := seed(); sd > 0 && len(chunks) > 1 {
 		k := sd % len(chunks)
@@ -263,7 +283,21 @@ func runParent(id, tier string) int {
 			defer wg.Done()
 			for r := range queue {
 				out := filepath.Join(tmp, fmt.Sprintf("w%d-%d.json", slot, r.lo))
-				cmd := exec.Command(self, "worker", id, tier, strconv.Itoa(r.lo), strconv.Itoa(r.hi), out)
+				bin := self
+				switch scs[r.lo].Flavour {
+				case "sched":
+					bin = os.Getenv("VERIF_SCHED_BIN")
+				case "race":
+					bin = os.Getenv("VERIF_RACE_BIN")
+				}
+				if bin == "" {
+					fmt.Fprintf(os.Stderr, "INFRA: no binary for flavour %q\n", scs[r.lo].Flavour)
+					mu.Lock()
+					infra = true
+					mu.Unlock()
+					continue
+				}
+				cmd := exec.Command(bin, "worker", id, tier, strconv.Itoa(r.lo), strconv.Itoa(r.hi), out)
 				cmd.Stdout = os.Stderr
 				cmd.Stderr = os.Stderr
 				cmd.Env = append(os.Environ(), "GOMAXPROCS=2", fmt.Sprintf("VERIF_DEADLINE_UNIXMS=%d", deadline.UnixMilli()))
